@@ -9,6 +9,12 @@ from .. import geomgen as G
 
 U = lambda k: uuidlib.UUID(int=9000 + k)
 TOL = Fraction(1, 10**9)
+TOL32 = Fraction(1, 10**6)  # decimal scores: prediction_encoding is float32, the sum of the scores is rounded in float32
+
+
+def _tol(c):
+    dec = any(s.denominator not in (1, 2, 4, 8, 16) for cl in c["clips"].values() for p in cl["preds"] for s in p["scores"])
+    return TOL32 if dec else TOL
 
 
 def _dm(d):
@@ -47,6 +53,14 @@ class C08(Prop):
         return {"type": "BoundingBox", "coordinates": [s, lo, s + Fraction(rng.randint(1, 8), 4), lo + Fraction(rng.randint(1, 4)) * 500]}
 
     def _scores(self, rng, nv):
+        if rng.random() < 0.3:
+            # decimal scores (hundredths) summing to at most 1 — often to exactly 1, as a softmax output does; their float32
+            # encodings sum to 1 +- a few ulp
+            left = 100 if rng.random() < 0.6 else rng.randint(50, 100)
+            cuts = sorted(rng.randint(0, left) for _ in range(nv - 1))
+            parts = [b - a for a, b in zip([0] + cuts, cuts + [left])]
+            rng.shuffle(parts)
+            return [Fraction(k, 100) for k in parts]
         left = 16
         out = []
         for _ in range(nv):
@@ -193,7 +207,7 @@ class C08(Prop):
         parts.append(f"nats_eqb' {ids_model} {listlit([ce['clip'] for ce in o['clips']], natlit)}")
         if len(o["inputs"]) != len(o["clips"]) or len(o["lsa"]) != len(o["clips"]):
             return "false"
-        tol = qlit(TOL)
+        tol = qlit(_tol(c))
         scores = []
         for inp, ce, lsa in zip(o["inputs"], o["clips"], o["lsa"]):
             if any(m[3] is None or (m[0] is not None and m[0] < 0) or (m[1] is not None and m[1] < 0) for m in ce["matches"]) or ce["score"] is None:
@@ -260,7 +274,7 @@ class C08(Prop):
                     y = inp["ytrue"][t]
                     vec = inp["yscore"][s]
                     want = (1 - sum(vec)) if y is None else vec[y]
-                    if sc is None or abs(sc - want) > TOL:
+                    if sc is None or abs(sc - want) > _tol(c):
                         fail("pair-score", f"clip {ce['clip']}: pair ({s},{t}) score {None if sc is None else float(sc)} != probability of the annotation's class {float(want)}")
                 elif s is None and t is None:
                     fail("empty-match", "match with neither source nor target")
@@ -269,12 +283,12 @@ class C08(Prop):
                         fail("unpaired-nonzero", f"clip {ce['clip']}: unpaired event ({s},{t}) has affinity {float(aff)} score {None if sc is None else float(sc)}")
             vals = [m[3] for m in ce["matches"] if m[3] is not None]
             want = sum(vals) / len(vals) if vals else Fraction(0)
-            if ce["score"] is None or abs(ce["score"] - want) > TOL:
+            if ce["score"] is None or abs(ce["score"] - want) > _tol(c):
                 fail("clip-score", f"clip {ce['clip']}: score {ce['score']} is not the mean of its match scores {float(want)}")
             if ce["score"] is not None:
                 clip_scores.append(ce["score"])
         want = sum(clip_scores) / len(clip_scores) if clip_scores else Fraction(0)
-        if o["score"] is None or abs(o["score"] - want) > TOL:
+        if o["score"] is None or abs(o["score"] - want) > _tol(c):
             fail("overall-score", f"overall score {o['score']} is not the mean of the clip scores {float(want)}")
         return fails
 
